@@ -200,10 +200,21 @@ func hexCharToHex(ch byte) byte {
 	return 0
 }
 
+func isHexChar(ch byte) bool { // strictly: no underscore, unlike isHexDigit for number literals.
+	return ('0' <= ch && ch <= '9') || ('a' <= ch && ch <= 'f') || ('A' <= ch && ch <= 'F')
+}
+
+// readHex reads 2 hex digits, fewer if what follows is not one: a malformed escape must not
+// swallow the closing quote (or run past the end of the input).
 func (l *Lexer) readHex() byte {
-	hb := hexCharToHex(l.readChar()) << 4
-	lb := hexCharToHex(l.readChar())
-	return hb | lb
+	var v byte
+	for range 2 {
+		if !isHexChar(l.peekChar()) {
+			break
+		}
+		v = v<<4 | hexCharToHex(l.readChar())
+	}
+	return v
 }
 
 func (l *Lexer) readUnicode16() rune {
